@@ -52,6 +52,16 @@ def module_src(k, imps, indir=(), nouse=False):
               "Und kann so benutzt werden:", '\t"zeige%d"' % k, "",
               "Die öffentliche Konstante KONST%d ist %d." % (k, k),
               "Wir nennen die öffentliche Kombination aus", "\tder öffentlichen Zahl inhalt mit Standardwert wert%d," % k, "einen Kasten%d, und erstellen sie so:" % k, '\t"ein Kasten%d"' % k, "",
+              # types that stay inside the module but are reachable from a public one: a private Kombination, a private definition of a list of it,
+              # a public Kombination with a field of that definition - the importing module never sees their names and must compile all the same
+              "Wir nennen die Kombination aus", "\tder Zahl tief mit Standardwert %d," % k, "einen Innen%d, und erstellen sie so:" % k, '\t"ein Innen%d"' % k, "",
+              "Wir definieren eine Wolke%d als eine Innen%d Liste." % (k, k), "",
+              "Wir nennen die öffentliche Kombination aus", "\tder Wolke%d punkte mit Standardwert (eine leere Innen%d Liste) als Wolke%d," % (k, k, k),
+              "\tder öffentlichen Zahl anzahl mit Standardwert 0,", "einen Zug%d, und erstellen sie so:" % k, '\t"ein leerer Zug%d"' % k, "",
+              "Die öffentliche Funktion verlaengere%d mit dem Parameter zug vom Typ Zug%d Referenz, gibt nichts zurück, macht:" % (k, k),
+              "\tDie Innen%d Liste bisher ist (punkte von zug) als Innen%d Liste." % (k, k),
+              "\tSpeichere (bisher verkettet mit (ein Innen%d)) als Wolke%d in punkte von zug." % (k, k), "\tErhöhe anzahl von zug um 1.",
+              "Und kann so benutzt werden:", '\t"verlängere%d <zug>"' % k, "",
               'Schreibe "TOP%d ".' % k]
     return "\n".join(lines) + "\n"
 
